@@ -98,7 +98,13 @@ class Gateway:
         if self.persistence:
             await self.persistence.load()
             await self.persistence.start()
-        await self.transport.connect()
+        try:
+            await self.transport.connect()
+        except BaseException:
+            # Don't leave the save task running if we fail to enter.
+            if self.persistence:
+                await self.persistence.stop()
+            raise
         return self
 
     async def __aexit__(
@@ -108,9 +114,11 @@ class Gateway:
         traceback: TracebackType | None,
     ) -> None:
         """Disconnect from the transport."""
-        await self.transport.disconnect()
-        if self.persistence:
-            await self.persistence.stop()
+        try:
+            await self.transport.disconnect()
+        finally:
+            if self.persistence:
+                await self.persistence.stop()
 
 
 @dataclass
